@@ -324,7 +324,8 @@ CHECKS = {
         "level_note": "memory sharing is detected through reflect pointers and by observing mutations; generated deep-copy code for slices/maps is checked in C20",
         "technique": "property-based testing (rapid): aliasing probes (mutate-and-reread) + algebraic laws",
         "tests": [{"name": "TestC13", "quick": 50000, "thorough": 3000000},
-                  {"name": "TestC13API", "quick": 5000, "thorough": 60000}],
+                  {"name": "TestC13API", "quick": 5000, "thorough": 60000},
+                  {"name": "TestC13Large", "kind": "plain", "quick": 1, "thorough": 1, "shards": {"quick": 1, "thorough": 1}}],
     },
     "C14": {
         "procs": 8,
